@@ -1,7 +1,9 @@
 (* Vec/RvChainEx.v — the hypotheses of the unbounded C04 / C16 theorems are satisfiable: on a concrete history over
    u64 elements (edits incl. a deletion and updates; two commits; three rollbacks, the last refused) the records built
-   at both commits satisfy valid_record, the stamps increase, the rollbacks start from committed states and do not
-   lengthen the vector; model and reference agree on it step by step. *)
+   at both commits satisfy valid_record, the stamps increase, the rollbacks start from committed states; model and
+   reference agree on it step by step.  Second history (ex_len): a rollback that LENGTHENS the vector (it undoes a
+   truncating commit; the class of the repaired findings 3/4), then a deletion of a restored slot, a push and an update,
+   then a commit whose record satisfies valid_record: such histories are in the strict class of C04_continuation. *)
 From Anydb Require Import Common.Base Common.LE Vec.RegionSpec Vec.RvBase Vec.RvChange Vec.RvChangeProofs
   Vec.RvModel Vec.RvRollback Vec.RvSpec Vec.RvInst Vec.RvFindings.
 
@@ -21,5 +23,20 @@ Example ex_valid1 : valid_record (w_enc 8) (fst (build_record (w_size 8) w_dec (
 Proof. valid_rec. Qed.
 Example ex_valid2 : valid_record (w_enc 8) (fst (build_record (w_size 8) w_dec (u64_run (w_init 3) ex_h2))).
 Proof. valid_rec. Qed.
-Example ex_agrees : disciplined 3 ex_hist = true /\ KnownClass_rollback_of_truncation 3 ex_hist = false /\ agree 3 ex_hist = true.
+Example ex_agrees : disciplined 3 ex_hist = true /\ agree 3 ex_hist = true.
+Proof. vm_compute. auto. Qed.
+
+Definition ex_l1 : list w_op := pushes 10.
+Definition ex_l2 : list w_op := ex_l1 ++ [Commit 1; Truncate 5].
+Definition ex_l3 : list w_op := ex_l2 ++ [Commit 2; Rollback; Delete 6; Push 7; Update 8 1].
+Definition ex_len : list w_op := ex_l3 ++ [Commit 2; Rollback; Rollback].
+Example ex_len_valid1 : valid_record (w_enc 8) (fst (build_record (w_size 8) w_dec (u64_run (w_init 3) ex_l1))).
+Proof. valid_rec. Qed.
+Example ex_len_valid2 : valid_record (w_enc 8) (fst (build_record (w_size 8) w_dec (u64_run (w_init 3) ex_l2))).
+Proof. valid_rec. Qed.
+Example ex_len_valid3 : valid_record (w_enc 8) (fst (build_record (w_size 8) w_dec (u64_run (w_init 3) ex_l3))).
+Proof. valid_rec. Qed.
+Example ex_len_agrees :
+  disciplined 3 ex_len = true /\ Class_rollback_of_truncation 3 ex_len = true /\ agree 3 ex_len = true /\
+  real_stored_len (u64_run (w_init 3) (ex_l2 ++ [Commit 2; Rollback])) <? stored_len (u64_run (w_init 3) (ex_l2 ++ [Commit 2; Rollback])) = true.
 Proof. vm_compute. auto. Qed.
